@@ -276,7 +276,21 @@ int main(int argc, char **argv)
         vr_seed(&r, VA.seed, VA.wid, k);
         va_reset();
         if (!strcmp(m, "c13")) case_c13(&r);
-        else if (!strcmp(m, "c14r")) check_render(text_tree(&r, vrn(&r, 3) != 0), "random tree");
+        else if (!strcmp(m, "c14r")) {
+            if (vrn(&r, VA.tier ? 150 : 400) == 0) {
+                /* a string value and a field name at the 32767/32768 and 65535/65536 boundaries: quoted verbatim, not clamped */
+                static const uint32_t HL[] = { 32767, 32768, 40000, 65535, 65536, 70000 };
+                uint32_t l1 = HL[vrn(&r, 6)], l2 = HL[vrn(&r, 6)];
+                uint8_t *pay = (uint8_t *)va(l1 + 1), *nm = (uint8_t *)va(l2 + 1);
+                for (uint32_t i = 0; i < l1; i++) pay[i] = (uint8_t)('a' + (i * 5) % 26);
+                for (uint32_t i = 0; i < l2; i++) nm[i] = (uint8_t)('A' + (i * 3) % 26);
+                vnode *o = vt_new(K_OBJ), *s = vt_str(K_STR, pay, l1), *k2 = vt_int(7), *k0 = vt_int(-1);
+                vt_setname(k0, (const uint8_t *)"0", 1); vt_setname(s, (const uint8_t *)"a", 1); vt_setname(k2, nm, l2);
+                vt_add(o, k0); vt_add(o, s); vt_add(o, k2); vt_sortfields(o);
+                vw_count("huge_text_documents", 1);
+                check_render(o, "huge string value and field name");
+            } else check_render(text_tree(&r, vrn(&r, 3) != 0), "random tree");
+        }
         else { fprintf(stderr, "HARNESS: unknown mode %s\n", m); return 2; }
     }
     return vw_finish();
